@@ -201,3 +201,25 @@ CLAIMED = {
 
 NOT_APPLICABLE = {
 }
+
+
+# ---- round 12 additions (appended to the claim texts above)
+_R12 = {
+    'C01': ' SIZE-FIELD-TWIN: the LZMA2 chunk size fields (size - 1, big-endian, five extra bits of the uncompressed size in the control '
+           'byte) are laid out the same way by the writer\'s two header emitters, the reader\'s header decoder and the MT reader\'s cutter '
+           '(layout read off the writer). RC-NORM-TWIN: range encoder (2 sites), range decoder and the x86-64 assembly renormalise under the '
+           'same predicate of `range` (compared on all critical points) and shift by the same amount. EMIT-LOOP-FLAGS: a reset flag that '
+           'chooses a chunk header inside an emitter loop is cleared inside that loop. DIST-BELOW-FULL, PENDING-PAIR-DEC (see C06, C07).',
+    'C03': ' SIZE-FIELD-TWIN, EMIT-LOOP-FLAGS (see C01). UNIT-RECORD (see C02).',
+    'C02': ' UNIT-RECORD: per-unit counters of XZWriter / LZIPWriter are advanced inside the loop that can close the unit, and a size the '
+           'closer puts into the unit record comes from a counter that is reset per unit.',
+    'C06': ' DIST-BELOW-FULL: LZDecoder::repeat reaches `pos - dist - 1` only under a guard that implies dist < full.',
+    'C07': ' PENDING-PAIR-DEC: the LZ decoder stores the distance of a pending match on every path on which it stores its remaining length.',
+    'C08': ' SIZE-FIELD-TWIN (see C01): the MT cutter takes the payload length from the header offsets at which the writer puts compressed - 1.',
+    'C14': ' RC-NORM-TWIN (see C01): the assembly direct-bit decoder skips the normalisation with jae/jnb like the portable loop.',
+    'C16': ' NORMALIZE-AT-END: LZMADecoder::decode builds every Ok result behind a RangeDecoder::normalize call. END-FLAG-GATES: in '
+           'LZMAReader, LZMA2Reader and XZReader every source pull reachable from `read` is behind the false edge of a test of the end flag.',
+    'C17': ' SINGLE-DECODER: a reader method that rebuilds its LZMADecoder drops the previous one before the constructor call.',
+}
+for _p, _t in _R12.items():
+    CLAIMED[_p]['claim'] += _t
